@@ -466,6 +466,7 @@ def run_family(prop: str, tier: str) -> int:
         rep.cov["protocol_traces_from_the_spec_itself"] = nspec
         (pr, rejected) = evalproto.validate(ptraces)
         rep.cov["protocol_traces_judged_by_tlc"] = len(ptraces)
+        rep.cov["corrupted_protocol_trace_rejected"] = bool(getattr(pr, "selftest", False))
         rep.cov["protocol_traces_from_repo_tests"] = nrepo
         rep.cov["protocol_trace_states"] = pr.distinct
         for rj in rejected:
